@@ -378,6 +378,9 @@ class DeInterp(SerdeInterp):
             if p.startswith('serde::de::Deserializer::deserialize_') and len(e.get('args', [])) >= 2:
                 args = [self.val(a, env) for a in e['args']]
                 return self.trait_like(DE, args[0], last_seg(p), args[1:])
+            if p == 'serde::de::Error::custom' and len(e.get('args', [])) == 1 and not e.get('resolved'):
+                # the error type is the access object's own (a type parameter of the visitor): an error value carrying the message
+                return ('de-error', deref(self.val(e['args'][0], env)))
             if p.startswith('serde::de::value::') and last_seg(p) == 'new' and len(e.get('args', [])) == 1:
                 a0 = deref(self.val(e['args'][0], env))
                 if isinstance(a0, (str, int, float, bool)):
